@@ -34,6 +34,10 @@ theorem cfgOf_bump (st : St) (n ident : Nat) :
     cfgOf (st.modNode n (fun nd => { nd with replies := bumpReply nd.replies ident })) = cfgOf st := cfgOf_modNode st n _ (fun _ => rfl)
 theorem cfgOf_served (st : St) (n : Nat) (b : Bool) :
     cfgOf (st.modNode n (fun nd => { nd with served := b })) = cfgOf st := cfgOf_modNode st n _ (fun _ => rfl)
+theorem cfgOf_got (st : St) (n svc : Nat) :
+    cfgOf (st.modNode n (fun nd => { nd with got := svc :: nd.got })) = cfgOf st := cfgOf_modNode st n _ (fun _ => rfl)
+theorem cfgOf_acks (st : St) (n svc : Nat) :
+    cfgOf (st.modNode n (fun nd => { nd with acks := svc :: nd.acks })) = cfgOf st := cfgOf_modNode st n _ (fun _ => rfl)
 theorem cfgOf_nextId (st : St) (k : Nat) : cfgOf ({ st with nextId := k } : St) = cfgOf st := rfl
 
 theorem cAt_zero : CAt 0 := by
@@ -65,7 +69,7 @@ theorem c_flood_fold (fuel : Nat) (ih : CAt fuel) (n i : Nat) (ports : List Nat)
 
 macro "cfg_close" ih:ident : tactic => `(tactic| (simp only [($ih).send, ($ih).recv, ($ih).sw, ($ih).flood, ($ih).host, ($ih).router,
   ($ih).process, ($ih).arpReply, ($ih).arpPkt, ($ih).icmp, ($ih).details, ($ih).out, ($ih).mac, ($ih).ifc, ($ih).req,
-  cfgOf_emit, cfgOf_addArp, cfgOf_learnMac, cfgOf_bump, cfgOf_served, cfgOf_nextId]))
+  cfgOf_emit, cfgOf_addArp, cfgOf_learnMac, cfgOf_bump, cfgOf_served, cfgOf_got, cfgOf_acks, cfgOf_nextId]))
 
 theorem cAt_succ (fuel : Nat) (ih : CAt fuel) : CAt (fuel + 1) := by
   constructor
@@ -596,7 +600,7 @@ theorem host_arp_req (fuel : Nat) (X : St) (b : Nat) (nd : Node) (ifc : Iface) (
   have hi' : (X.emit (.rx b 0 f.id f.ttl)).iface? b 0 = some ifc := hi
   have hbd : (f.dec.dstMac == bcastMac) = true := by simp [Frame.dec, hb]
   have hpl' : f.dec.pl = .arpReq sIp sMac ifc.ip := hpl
-  simp only [ifaceRecv, hn, hi, h1, if_false, hk, hacc, if_true, hostRecv, hn', hi', hon, hpl', Bool.not_true, Bool.false_eq_true,
+  simp only [ifaceRecv, hn, hi, h1, if_false, hk, hacc, if_true, hostRecv, portClosed, Bool.false_eq_true, hn', hi', hon, hpl', Bool.not_true, Bool.false_eq_true,
     bne_self_eq_false, hbd]
   rfl
 
@@ -628,7 +632,7 @@ theorem host_arp_rep (fuel : Nat) (X : St) (a : Nat) (nd : Node) (ifc : Iface) (
   have hi' : (X.emit (.rx a 0 f.id f.ttl)).iface? a 0 = some ifc := hi
   have hbd : (f.dec.dstMac == bcastMac) = false := by simp [Frame.dec, hm, hnb]
   have hpl' : f.dec.pl = .arpRep sIp sMac tIp tMac := hpl
-  simp only [hostRecv, hn', hi', hon, if_true, hpl', Bool.not_true, Bool.false_eq_true, if_false, hbd]
+  simp only [hostRecv, portClosed, Bool.false_eq_true, if_false, hn', hi', hon, if_true, hpl', Bool.not_true, Bool.false_eq_true, if_false, hbd]
   rfl
 
 /-! ### one switched LAN, cold caches: the ARP exchange -/
